@@ -1820,6 +1820,13 @@ def _readsegment(
             result += before
             return after, result
 
+        # An error reply is a single line that never carries the end token:
+        # hand it to the caller (which raises it) instead of waiting forever.
+        if buf.endswith(b"\r\n") and buf.startswith(
+            (b"ERROR", b"CLIENT_ERROR", b"SERVER_ERROR")
+        ):
+            return b"", buf[:-2]
+
         chunk = _recv(sock, RECV_SIZE)
         if not chunk:
             raise MemcacheUnexpectedCloseError()
